@@ -21,6 +21,7 @@ that silently decides nothing.
 from __future__ import annotations
 
 import ast
+import os
 import itertools as _it
 from typing import Any, Callable, Dict, List, Optional, Tuple
 
@@ -729,7 +730,8 @@ def _compress_cells():
 def _reduce_cells():
     import functools as _ft
     for n in range(0, 4):
-        for with_initial in (False, True):
+        # (an initial value of None is an initial value like any other: the stdlib folds it in)
+        for with_initial in (False, True, None):
             def oracle(n=n, with_initial=with_initial):
                 calls: List[Any] = _Calls()
                 src = _Src(_items(0, n))
@@ -737,12 +739,14 @@ def _reduce_cells():
                 def fn(x, y):
                     calls.append(("F", (x, y)))
                     return ("f", x, y)
+                if with_initial is None:
+                    return _observe_call(lambda: _ft.reduce(fn, src, None), [src], calls)
                 if with_initial:
                     return _observe_call(lambda: _ft.reduce(fn, src, "INIT"), [src], calls)
                 return _observe_call(lambda: _ft.reduce(fn, src), [src], calls)
-            pos = [("FN", "F"), ("IT", 0)] + (["INIT"] if with_initial else [])
-            yield Cell(f"{n} items, {'with' if with_initial else 'no'} initial", pos, {}, {0: n}, oracle,
-                       fns={"F": lambda a: ("f",) + tuple(a)})
+            pos = [("FN", "F"), ("IT", 0)] + ([None] if with_initial is None else ["INIT"] if with_initial else [])
+            yield Cell(f"{n} items, {'initial None' if with_initial is None else 'with initial' if with_initial else 'no initial'}",
+                       pos, {}, {0: n}, oracle, fns={"F": lambda a: ("f",) + tuple(a)})
 
 
 def _sum_cells():
@@ -775,7 +779,8 @@ def _minmax_cells(stdlib_fn):
     for n in range(0, 4):
         for ranks in _it.product((0, 1, 2), repeat=n):
             for with_key in (False, True):
-                for with_default in (False, True):
+                # (a default of None is a default like any other: returned for empty input)
+                for with_default in ((False, True, None) if n < 2 else (False, True)):
                     rk = {("item", 0, i): ranks[i] for i in range(n)}
                     rk.update({("key", ("item", 0, i)): ranks[i] for i in range(n)})
 
@@ -789,17 +794,21 @@ def _minmax_cells(stdlib_fn):
                         kw: Dict[str, Any] = {}
                         if with_key:
                             kw["key"] = key
-                        if with_default:
+                        if with_default is None:
+                            kw["default"] = None
+                        elif with_default:
                             kw["default"] = "DEFAULT"
                         obs = _observe_call(lambda: stdlib_fn(src, **kw), [src], calls)
                         return obs[:4] + (_unsym(obs[4]),)
                     kw2: Dict[str, Any] = {}
                     if with_key:
                         kw2["key"] = ("FN", "K")
-                    if with_default:
+                    if with_default is None:
+                        kw2["default"] = None
+                    elif with_default:
                         kw2["default"] = "DEFAULT"
                     yield Cell(f"{n} items ranked {ranks or '-'}, {'key' if with_key else 'no key'}, "
-                               f"{'default' if with_default else 'no default'}", [("IT", 0)], kw2, {0: n}, oracle,
+                               f"{'default None' if with_default is None else 'default' if with_default else 'no default'}", [("IT", 0)], kw2, {0: n}, oracle,
                                fns={"K": lambda a: ("key", a[0])}, ranks=rk)
 
 
@@ -1218,11 +1227,17 @@ def _tables(ctx, rid: str, tools, kind: str, counter: str, fields=ALL, make_ops=
                     return sum(1 for ev_ in e.get("@trace", ()) if ev_[0] == "yield") >= k
             try:
                 outs = machine.run(env, halt=halt)
-            except AnalysisError:
+            except AnalysisError as exc_:
                 if not machine.forked and not ops.undecided and want[3] != "endless":
                     return "endless", None, want
+                if os.environ.get("ASL_DEBUG_CELLS"):
+                    print(f"DEBUG undecided [{short}: {cell.label}] {exc_} forked={machine.forked} ops.undecided={ops.undecided}")
                 return "undecided", None, want
             if len(outs) != 1 or ops.undecided or outs[0].env.get("@undecided"):
+                if os.environ.get("ASL_DEBUG_CELLS"):
+                    print(f"DEBUG undecided [{short}: {cell.label}] outcomes={len(outs)} ops.undecided={ops.undecided} "
+                          f"env.undecided={[o.env.get('@undecided') for o in outs]} forked={machine.forked} "
+                          f"ends={[(o.terminal.kind, getattr(o.terminal, 'line', None), o.raised) for o in outs]}")
                 return "undecided", None, want
             oc = outs[0]
             tr = oc.env.get("@trace", ())
